@@ -11,7 +11,7 @@ if [ -n "$(git -C /repo status --porcelain --untracked-files=no)" ]; then echo "
 git -C /repo apply "$sd/patch.diff" || { echo "seeded_eval: patch does not apply" >&2; exit 2; }
 trap 'git -C /repo checkout -- . ' EXIT
 for c in "${checks[@]}"; do
-  out=$(cd /verif && ./check "$c" --tier quick --no-evidence 2>&1); rc=$?
+  out=$(cd /verif && ./check "$c" --tier quick --no-evidence ${SEEDED_ARGS:-} 2>&1); rc=$?
   sites=$(echo "$out" | grep -E "^  site=" | sed -E 's/^  site=([^ ]+).*/\1/' | tr '\n' ' ')
   echo "$(date -u +%FT%TZ) seed=$(basename $sd) check=$c exit=$rc sites=[$sites]" | tee -a "$sd/runs.log"
 done
